@@ -195,5 +195,10 @@ def _apply(it, c, fn, args, kwargs, node):
         raise PyExc(tag, (f'raised by {fn.__qualname__} (contract)',), getattr(node, 'lineno', None), it.where())
     res = c.result(cx, **p)
     for label, t in getattr(c, 'post_assumed', c.post)(cx, res, **p).items():
+        if t is False:
+            raise Unsupported(f'summary of {c.name} is inconsistent: clause {label} is false for the value its result() built')
         run.assume(t)
+    if not run.sat():
+        raise Unsupported(f'summary of {c.name} is inconsistent: its postcondition contradicts the value its result() built '
+                          f'(vacuous normal path)')
     return res
